@@ -302,6 +302,7 @@ def constructor_cases(rng):
         wg = lambda pa=pa, **kw: mo.WormGear(**dict(dict(name='w', n_starts=2, inertia_moment=J, pressure_angle=U.Angle(pa, 'deg'), helix_angle=U.Angle(10, 'deg')), **kw))
         ww = lambda pa=pa, **kw: mo.WormWheel(**dict(dict(name='w', n_teeth=30, inertia_moment=J, pressure_angle=U.Angle(pa, 'deg'), helix_angle=U.Angle(10, 'deg')), **kw))
         over = mx + rng.choice([0.01, 1, 20])
+        C.append((f'worm pa={pa} with reference diameter, helix={over} (above its limit)', lambda wg=wg, over=over: wg(helix_angle=U.Angle(over, 'deg'), reference_diameter=U.Length(12, 'mm')), 'reject'))
         # the same pressure angle written in another unit (harness conversion): the worm limit must not depend on it
         pu = rng.choice(['rad', 'rot', 'arcmin', 'arcsec'])
         pa_u = lambda pa=pa, pu=pu: U.Angle(SI.convert('Angle', pa, 'deg', pu), pu)
